@@ -218,8 +218,11 @@ class Check:
                 if match_known(v, self.known) is not None:
                     self.report_violation(v, rep)
                     continue
+                if len(self.violations) >= 12:
+                    self.suppressed = getattr(self, 'suppressed', 0) + 1
+                    continue
                 if minimise and sig not in seen_sigs and \
-                   time.monotonic() < budget_end:
+                   len(seen_sigs) < 4 and time.monotonic() < budget_end:
                     root = os.path.join(self.scratch, 'min')
                     try:
                         rep2, v2 = minimise(rep, v, root,
@@ -302,13 +305,17 @@ class Check:
             self.out('  oracle={} features={}'.format(v['oracle'],
                                                       v['features']))
             self.out('  ' + v['detail'].replace('\n', '\n  ')[:1500])
-        self.out('{}: {} cases, {} nontrivial-distinct, {} violations, '
-                 '{} known findings seen, {} harness errors, {:.1f}s'.format(
-                     self.prop, len(self.cases),
-                     len({c['shape'] for c in self.cases
-                          if c['nontrivial']}),
-                     len(self.violations), len(self.known_seen),
-                     len(self.harness_errors), wall))
+        with open(os.path.join(VERIF, 'evidence',
+                               '{}.json'.format(self.prop))) as f:
+            cov = json.load(f)['coverage']
+        self.out('{}: {} cases, {} evaluations, {} nontrivial-distinct, {} '
+                 'violations{}, {} known findings seen, {} harness errors, '
+                 '{:.1f}s'.format(
+                     self.prop, len(self.cases), cov['evaluations'],
+                     cov['distinct_nontrivial'], len(self.violations),
+                     ' (+{} more not written out)'.format(self.suppressed)
+                     if getattr(self, 'suppressed', 0) else '',
+                     len(self.known_seen), len(self.harness_errors), wall))
         if self.harness_errors:
             for h in self.harness_errors[:3]:
                 self.out('HARNESS-ERROR seed={}:\n{}'.format(
